@@ -264,6 +264,26 @@ def stepLine (st : St) (w : List String) : St × String :=
     | some (.error _) => out st .err
     | none => (st, "bad-op")
   | ["gm"] => let (st', res) := apply st .getMerges; out st' res
+  | "vseq" :: dir :: h :: n :: rest =>
+    match decode h, n.toNat? with
+    | some (.ok (c, r), _), some n =>
+      if rest.length ≠ 2 * n then (st, "bad-op") else
+      let rec vals : List String → Option (List Value)
+        | [] => some []
+        | k :: a :: tl => match parseValue k a, vals tl with
+          | some v, some vs => some (v :: vs)
+          | _, _ => none
+        | _ => none
+      match vals rest with
+      | some vs =>
+        -- the model function, cross-checked with the step-by-step execution that also drives Spec
+        let m := setSheetCells st.impl (dir == "r") c r 0 vs
+        let (st', res) := runSeq st dir (Grid.seqOps (dir == "r") c r 0 vs)
+        let (st'', line) := out st' res
+        (st'', if dump m.1 == dump st'.impl ∧ m.2 == res then line else line ++ " SEQDIFF")
+      | none => (st, "bad-op")
+    | some (.error _, _), some _ => out st .err
+    | _, _ => (st, "bad-op")
   | "seq" :: dir :: h :: n :: rest =>
     match decode h, n.toNat? with
     | some (.ok (c, r), _), some n =>
